@@ -55,6 +55,12 @@ type Login struct {
 	EchoUser   bool   // echo the typed user name (telnet does)
 	RejectText string
 	Return     byte
+	// Mute: once admitted the device neither echoes nor answers (a NETCONF server after its hello)
+	Mute bool
+	// ShellOutput is what the shell prints for a non-empty command line (default "% Unknown command")
+	ShellOutput func(line string) string
+	// WriteFails counts Write calls the pipe refused (injected write error / closed)
+	WriteFails int
 
 	cur       int
 	line      []byte
@@ -115,7 +121,7 @@ func (l *Login) onWrite(b []byte) {
 		kind := l.curKind()
 		if ch != l.Return {
 			l.line = append(l.line, ch)
-			if kind == LoginShell || (kind == LoginUser && l.EchoUser) {
+			if (kind == LoginShell && !l.Mute) || (kind == LoginUser && l.EchoUser) {
 				l.Emit([]byte{ch})
 			}
 			continue
@@ -142,9 +148,17 @@ func (l *Login) onWrite(b []byte) {
 				l.emit(kind, l.NL+l.RejectText+l.NL+l.Plan[l.cur].Text)
 			}
 		case LoginShell:
+			if l.Mute {
+				l.emit(LoginShell, "")
+				break
+			}
 			out := l.NL
 			if line != "" {
-				out += "% Unknown command" + l.NL
+				if l.ShellOutput != nil {
+					out += l.ShellOutput(line)
+				} else {
+					out += "% Unknown command" + l.NL
+				}
 			}
 			l.emit(LoginShell, out+l.Prompt)
 		default:
@@ -153,6 +167,27 @@ func (l *Login) onWrite(b []byte) {
 		}
 	}
 }
+
+// Write counts refused writes on top of Pipe.Write.
+func (l *Login) Write(b []byte) error {
+	err := l.Pipe.Write(b)
+	if err != nil {
+		l.Mu.Lock()
+		l.WriteFails++
+		l.Mu.Unlock()
+	}
+	return err
+}
+
+// LoginPlain hides the in-channel-auth methods of a Login: a transport.Implementation that does not
+// ask for in-channel authentication (Transport.InChannelAuthData reports "unsupported").
+type LoginPlain struct{ L *Login }
+
+func (p *LoginPlain) Open(a *transport.Args) error { return p.L.Open(a) }
+func (p *LoginPlain) Close() error                  { return p.L.Close() }
+func (p *LoginPlain) IsAlive() bool                 { return p.L.IsAlive() }
+func (p *LoginPlain) Read(n int) ([]byte, error)    { return p.L.Read(n) }
+func (p *LoginPlain) Write(b []byte) error          { return p.L.Write(b) }
 
 // LoginSSH is the ssh flavour: it additionally satisfies transport.SSHImplementation, which
 // Transport.InChannelAuthData requires of every non-telnet in-channel transport.
